@@ -182,7 +182,7 @@ func checkC09(c *Ctx, e *Env) {
 							if !has {
 								continue
 							}
-							k := fmt.Sprintf("%s.%s: %s ← %s", tn, rq.Field, rq.Fact, h.Key+"→"+siteKey(ev))
+							k := fmt.Sprintf("%s.%s: %s ← %s#%s.%s", tn, rq.Field, rq.Fact, h.Key, tn, ev.Method)
 							a := res[k]
 							if a == nil {
 								a = &agg{pos: p.Pos(ev.Pos.Pos())}
@@ -221,7 +221,7 @@ func checkC09(c *Ctx, e *Env) {
 							for _, set := range alts[fld] {
 								descs = append(descs, strings.Join(set, " ∧ "))
 							}
-							k := fmt.Sprintf("%s.%s: %s ← %s", tn, fld, strings.Join(descs, "  ∨  "), h.Key+"→"+siteKey(ev))
+							k := fmt.Sprintf("%s.%s: %s ← %s#%s.%s", tn, fld, strings.Join(descs, "  ∨  "), h.Key, tn, ev.Method)
 							a := res[k]
 							if a == nil {
 								a = &agg{pos: p.Pos(ev.Pos.Pos())}
@@ -490,6 +490,9 @@ func entails(x *Explorer, m *Model, st *State, mv *Validated, ev *Event, rq requ
 		}
 		if v == "0" || v == "nil" {
 			return "no", fmt.Sprintf("%s.%s is written as %s but the state validator requires a non-zero value", t.Name, rq.Field, v)
+		}
+		if n, _, isNum := twoInts(v, "0"); isNum && n != 0 {
+			return "yes", "" // a non-zero constant
 		}
 		return "no", fmt.Sprintf("%s.%s = %s is not provably non-zero (required by the state validator)", t.Name, rq.Field, v)
 	// ---- non-empty strings / bytes
